@@ -21,9 +21,28 @@ def run(ctx, dangling_clause=True):
     b = F.fn("Document::renumber_objects_with")
     loops = b.loops()
     rem = [c for c in b.calls if re.search(r"BTreeMap::<.*>::remove$", c.fn or "") and "self.objects" in b.oname(c.args[0], 4)]
+    # a removal written as an iterator chain: `replace.iter().filter_map(|(old, new)| self.objects.remove(old).map(|o| (*new, o))).collect()`
+    crem = [(x, c) for x in F.with_closures(b) if x is not b for c in x.calls if re.search(r"BTreeMap::<.*>::remove$", c.fn or "") and re.search(r"self(\.|$)|objects", x.oname(c.args[0], 4))]
+    chain_ok = []
+    for x, c in crem:
+        # the closure (or a closure inside it) hands on (new, object): a pair whose first component is the second component of
+        # the (old, new) pair the chain iterates over — and it inserts nothing into `objects` itself
+        pairs = []
+        for y in F.with_closures(x):
+            for bi_, si_, st_ in y.stmts():
+                rv_ = st_.get("rv")
+                if rv_ and rv_["k"] == "agg" and rv_["kind"].get("a") == "tuple" and len(rv_["ops"]) == 2:
+                    o_ = lib.origin_local(F, y, rv_["ops"][0])
+                    fl_ = [e["f"] for e in (o_[2] if o_ else []) if isinstance(e, dict) and "f" in e]
+                    pairs.append(bool(o_) and o_[0] is x and o_[1] == x.argc and fl_[-1:] == [1])
+        noins = not any(re.search(r"BTreeMap::<.*>::(insert|extend|append)$", c2.fn or "") for y in F.with_closures(x) for c2 in y.calls)
+        chain_ok.append(bool(pairs) and all(pairs) and noins)
     # stores into self.objects: single insertions, or the whole temporary map at once (extend / append)
     ins = [c for c in b.calls if re.search(r"BTreeMap::<.*>::(insert|append)$|BTreeMap<.*> as std::iter::Extend<.*>>::extend$|iter::Extend::extend$", c.fn or "") and "self.objects" in b.oname(c.args[0], 4)]
-    ctx.floor(R, "remove calls on self.objects", len(rem), 2)
+    ctx.floor(R, "remove calls on self.objects", len(rem) + len(crem), 2)
+    for i_, ok_ in enumerate(chain_ok):
+        ctx.ob(R, "two-phase-move|chain-%d" % i_, ok_, "the removing iterator chain hands on (new id, object) and inserts nothing", b.where(crem[i_][1].ln),
+               what="renumber_objects_with: the chain that removes the old keys does not hand on (new id, object) pairs, or inserts into `objects` while removing")
     ctx.floor(R, "insert calls on self.objects", len(ins), 2)
     for c in rem:
         inner = [bl for h, bl in loops.items() if c.bb in bl]
@@ -33,7 +52,7 @@ def run(ctx, dangling_clause=True):
     # stored key == reference replacement
     tmp_ins = [c for c in b.calls if re.search(r"BTreeMap::<.*>::insert$", c.fn or "") and re.match(r"^&objects", b.oname(c.args[0], 3))]
     rep_ins = [c for c in b.calls if re.search(r"BTreeMap::<.*>::insert$", c.fn or "") and re.match(r"^&replace", b.oname(c.args[0], 3))]
-    ctx.floor(R, "insertions into the temporary object map", len(tmp_ins), 2)
+    ctx.floor(R, "insertions into the temporary object map", len(tmp_ins) + len(crem), 2)
     ctx.floor(R, "insertions into the replace map", len(rep_ins), 2)
     # page pass: both in the same block region with identical value terms
     paired = 0
@@ -48,7 +67,7 @@ def run(ctx, dangling_clause=True):
     ctx.floor(R, "store/replace pairs in the page pass", paired, 1)
     # main pass: temporary map keyed by the replace map's values
     main = [t for t in tmp_ins if "new" in b.oname(t.args[1], 4) and not any(b.dominates(t.bb, r.bb) and any(t.bb in bl and r.bb in bl for bl in loops.values()) for r in rep_ins)]
-    ctx.ob(R, "stored-key-equals-replacement|main-pass", len(main) == 1 and re.match(r"^\*?new$", b.oname(main[0].args[1], 3)) is not None, "objects are stored under the `new` of the (old, new) pair being iterated", b.where(),
+    ctx.ob(R, "stored-key-equals-replacement|main-pass", (len(main) == 1 and re.match(r"^\*?new$", b.oname(main[0].args[1], 3)) is not None) or (not main and len(chain_ok) == 1 and chain_ok[0]), "objects are stored under the `new` of the (old, new) pair being iterated", b.where(),
            what="the main pass does not store the object under the new id taken from the replace map")
     # the replace map assigns consecutive numbers: (new_id, id.1) with new_id += 1 each turn
     mainrep = [r for r in rep_ins if "new_id" in b.oname(r.args[2], 5)]
@@ -215,7 +234,10 @@ def run(ctx, dangling_clause=True):
                         seen.add(y)
                         st_.extend(ub.succ[y])
                     return rec[0].bb in seen
-                if any(reach_same_turn(x) for x in ub.succ[bi]) and not all(reach_same_turn(x) for x in ub.succ[bi]):
+                def leaves_loop(x):
+                    # the edge gives the whole walk up (a `return`): it reaches neither the recursion nor the next turn
+                    return not any(x == h or ub.can_reach(x, h) for h in heads)
+                if any(reach_same_turn(x) for x in ub.succ[bi]) and not all(reach_same_turn(x) or leaves_loop(x) for x in ub.succ[bi]):
                     okb = False
     ctx.ob(R, "bookmark-children-always-visited", okb, "the recursion into the children does not depend on whether the parent bookmark matched", ub.where(),
            what="update_bookmark_pages visits the children of a bookmark only on one outcome of the `page == old` test: a nested bookmark that targets the same page as an ancestor keeps the old id")
